@@ -351,3 +351,48 @@ Proof.
         unfold r1 at 2. cbn [rd_rec rd_td]. unfold r1 at 1. cbn [rd_rec].
         destruct (prepend recs _ _) as [[aa bb] ee]. reflexivity.
 Qed.
+Print Assumptions read_frame_records.
+
+(* ------------------------------------------------------------------ link to Writer.frame_check *)
+(* [recs_ok] is [WireFacts.records_ok] / [Writer.frame_check] evaluated with the previous values
+   the reader really holds (the apply chain), plus the fuel bound *)
+Fixpoint chain_prevs (t : etree) (recs : list wire) (prev : rnode) (td : tdicts) : list rnode :=
+  match recs with
+  | [] => []
+  | a :: r => let x := apply [] t prev a td in prev :: chain_prevs t r (snd x) (fst x)
+  end.
+
+Lemma recs_ok_records_ok : forall sizes fuel t recs ws prev td,
+  recs_ok sizes fuel t recs ws prev td =
+  records_ok sizes [] t (combine (chain_prevs t recs prev td) recs) ws &&
+  forallb (fun a => (height a <? fuel)%nat) recs.
+Proof.
+  intros sizes fuel t. induction recs as [|a recs IH]; intros ws prev td; [reflexivity|].
+  cbn [recs_ok chain_prevs combine records_ok forallb]. cbv zeta. rewrite IH.
+  destruct (wire_ok sizes [] t prev a ws 0), (height a <? fuel)%nat, (records_ok _ _ _ _ _);
+    reflexivity.
+Qed.
+
+Lemma recs_ok_frame_check : forall sizes fuel t fl ws recs prev td,
+  recs_ok sizes fuel t recs (w_restart fl ws) prev td =
+  forallb (fun b => b) (snd (frame_check sizes t fl ws (combine (chain_prevs t recs prev td) recs))) &&
+  forallb (fun a => (height a <? fuel)%nat) recs.
+Proof.
+  intros. rewrite recs_ok_records_ok, frame_check_records. cbn [snd].
+  rewrite records_ok_forallb. reflexivity.
+Qed.
+
+Lemma chain_prevs_length : forall t recs prev td, length (chain_prevs t recs prev td) = length recs.
+Proof.
+  intros t. induction recs as [|a recs IH]; intros prev td; [reflexivity|].
+  cbn [chain_prevs length]. cbv zeta. rewrite IH. reflexivity.
+Qed.
+
+(* the previous values are the values, shifted by one *)
+Lemma chain_prevs_values : forall t recs prev td,
+  chain_prevs t recs prev td = removelast (prev :: chain_values t recs prev td).
+Proof.
+  intros t. induction recs as [|a recs IH]; intros prev td; [reflexivity|].
+  cbn [chain_prevs chain_values]. cbv zeta. rewrite IH.
+  set (x := apply [] t prev a td). cbn [removelast]. reflexivity.
+Qed.
